@@ -6,7 +6,14 @@ unset GOSUMDB
 REPO=${REPO:-/repo}
 tot_pass=0; tot_fail=0
 for m in . otel stores/durablestream stores/sqlite; do
-  out=$(cd "$REPO/$m" && go test -json -vet=off -count=1 -timeout 25m ./... 2>&1)
+  out=$(cd "$REPO/$m" && go test -json -vet=off -count=1 -timeout 6m ./... 2>&1)
+  # the repository's own TestAsyncSequentialHandlerContextCancelled can hang (its handler sends three times on an unbuffered
+  # channel that is read once; seen on the pinned commit under load, with and without the verif tag): a run that ends in
+  # "test timed out" in that test is repeated once
+  if printf '%s\n' "$out" | grep -q 'panic: test timed out' && printf '%s\n' "$out" | grep -q 'TestAsyncSequentialHandlerContextCancelled'; then
+    echo "module=$m: the repository's flaky TestAsyncSequentialHandlerContextCancelled hung; running the module again"
+    out=$(cd "$REPO/$m" && go test -json -vet=off -count=1 -timeout 6m ./... 2>&1)
+  fi
   p=$(printf '%s\n' "$out" | grep -c '"Action":"pass","Package":"[^"]*","Test"')
   f=$(printf '%s\n' "$out" | grep -c '"Action":"fail","Package":"[^"]*","Test"')
   bf=$(printf '%s\n' "$out" | grep -c '"Action":"fail"')
